@@ -25,8 +25,18 @@ DROPPING_ADAPTORS = ("Iterator::filter", "Iterator::filter_map", "Iterator::skip
                      "Iterator::next", "Iterator::flat_map")
 
 
+READER_WRAPPERS = set()     # preprocessor functions that only forward the result of read_new_file (filled in run())
+
+
 def is_read(t):
-    return (t.get("callee") or "") == READ_DECL or (callee_of(t) or "").endswith("::read_new_file")
+    return (t.get("callee") or "") == READ_DECL or (callee_of(t) or "").endswith("::read_new_file") \
+        or (callee_of(t) or "") in READER_WRAPPERS
+
+
+def reader_id(t):
+    """Which resolver a read goes through: the trait method itself or a wrapper function."""
+    c = callee_of(t) or ""
+    return c if c in READER_WRAPPERS else "read_new_file"
 
 
 _PUSH_HELPERS = {}
@@ -108,9 +118,25 @@ def run(tier="quick", replay=None):
                      "part of the listing's scope", "filesystem does not change between the recorder's read and the consumer's read"]
 
     # ---------------- R18.b ------------------------------------------------------
+    # reader wrappers: functions that call read_new_file, hand its result back and record nothing themselves; a call of
+    # such a wrapper is a read site (and which wrapper is used is part of the site's identity)
+    READER_WRAPPERS.clear()
+    for f in prog.fns.values():
+        if not f.root.startswith("compiler::preprocessor::") or f.kind == "Closure":
+            continue
+        reads = [(bb, t) for bb, t in f.calls() if (t.get("callee") or "") == READ_DECL or (callee_of(t) or "").endswith("::read_new_file")]
+        if not reads:
+            continue
+        wfl = Flow(f)
+        if push_sites(f, wfl, prog):
+            continue
+        if all(t["dest"]["l"] == 0 or 0 in wfl.forward([t["dest"]["l"]]) for _, t in reads) and "Vec<u8>" in f.local_ty(0) \
+                and "IncludeDesc" not in " ".join(f.local_ty(i) for i in range(1, f.argc + 1)):
+            READER_WRAPPERS.add(f.path)
+    R.counts["reader wrappers"] = sorted(READER_WRAPPERS)
     sites = []
     for f in prog.fns.values():
-        if not f.root.startswith("compiler::preprocessor::"):
+        if not f.root.startswith("compiler::preprocessor::") or f.path in READER_WRAPPERS:
             continue
         for bb, t in f.calls():
             if is_read(t):
@@ -157,7 +183,7 @@ def run(tier="quick", replay=None):
                 if not (f.reachable(tgt) & set(oks)):
                     continue   # leads to errors only
                 skips.append(classify_skip(f, fl, sb, v, edges))
-        recorders[f.path] = {"skips": skips, "vec_params": vparams, "site": f.loc(bb)}
+        recorders[f.path] = {"skips": skips, "vec_params": vparams, "site": f.loc(bb), "reader": reader_id(t)}
         for sk in skips:
             key = "R18.b.skip|%s|%s" % (f.path, sk["what"])
             if sk["class"] == "pseudo-file":
@@ -207,7 +233,8 @@ def run(tier="quick", replay=None):
                         err_only_before = False
             if param_passthrough(w, wfl, ct) and (through or err_only_before) and not (set(oks) & set(w.reachable(0, avoid=[cbb]))):
                 inner = recorders[callee_of(ct)]
-                recorders[w.path] = {"skips": inner["skips"], "vec_params": inner.get("vec_params", set()), "site": w.loc(cbb), "wraps": callee_of(ct)}
+                recorders[w.path] = {"skips": inner["skips"], "vec_params": inner.get("vec_params", set()), "site": w.loc(cbb), "wraps": callee_of(ct),
+                                     "reader": inner.get("reader")}
                 R.ob("R18.b", "R18.b|%s|wrapper-of-recorder" % w.path, w.loc(cbb),
                      "auto: records through %s (called with its own parameters before every Ok return)" % callee_of(ct), fn=w.path)
                 changed = True
@@ -269,6 +296,12 @@ def run(tier="quick", replay=None):
                 problems.append("%s calls it at %s with no dominating recorder call on the same include" % (g.path, g.loc(cbb)))
                 continue
             rbb, rt, rc, common = found
+            # the recorder and the consumer must resolve the name through the SAME reader, or the listing names a file other
+            # than the one compiled in
+            if recorders[rc].get("reader") not in (None, reader_id(t)):
+                problems.append("the recorder %s resolves the name with %s but %s reads it with %s: the listed file need not be the "
+                                "file that is read" % (rc.rsplit("::", 1)[-1], recorders[rc]["reader"].rsplit("::", 1)[-1],
+                                                       f.path.rsplit("::", 1)[-1], reader_id(t).rsplit("::", 1)[-1]))
             # conditional skips of the recorder, evaluated for this call site
             for sk in recorders[rc]["skips"]:
                 if sk["class"] != "conditional":
